@@ -422,9 +422,10 @@ def _stg_conformance(sc, v, runs):
     v.extra["runs_validated_against_Stg"] = v.extra.get("runs_validated_against_Stg", 0) + n
 
 
-def _mc_stg(sc, v):
-    """design level: exhaustive model checking of the abstract system specification"""
-    for cfgname in ("MCStg",):
+def _mc_stg(sc, v, tier="quick"):
+    """design level: exhaustive model checking of the abstract system specification (quick: counts <= 2, 137 k states;
+    thorough: counts <= 3 with both fault kinds at every point, 1.29 M states)"""
+    for cfgname in (("MCStg",) if tier == "quick" else ("MCStg", "MCStg3")):
         p = os.path.join(vlib.SPEC, cfgname + ".cfg")
         if not os.path.exists(p):
             continue
@@ -439,7 +440,7 @@ def _mc_stg(sc, v):
 def check_C01(sc, v, tier, seed, replay):
     import random
     import online
-    _mc_stg(sc, v)
+    _mc_stg(sc, v, tier)
     emu = online.prepare(sc)
     rnd = random.Random(seed * 1009 + 1)
     n = 3 if tier == "quick" else 24
@@ -464,7 +465,7 @@ def check_C01(sc, v, tier, seed, replay):
 def check_C02(sc, v, tier, seed, replay):
     import random
     import online
-    _mc_stg(sc, v)
+    _mc_stg(sc, v, tier)
     emu = online.prepare(sc)
     rnd = random.Random(seed * 1013 + 2)
     shapes = [(1, 1, 1, 1, 1), (2, 2, 1, 1, 2), (2, 3, 3, 3, 3)]
@@ -498,7 +499,7 @@ def check_C19(sc, v, tier, seed, replay):
     import random
     import online
     # design level: the abstract system specification with both fault kinds (FailStopSafe, Terminates)
-    _mc_stg(sc, v)
+    _mc_stg(sc, v, tier)
     emu = online.prepare(sc)
     rnd = random.Random(seed * 1019 + 19)
     shapes = [(1, 1, 1, 1, 1)] if tier == "quick" else [(1, 1, 1, 1, 1), (2, 2, 1, 2, 2), (3, 2, 2, 1, 3)]
@@ -833,7 +834,10 @@ def check_C18(sc, v, tier, seed, replay):
     # (c) argument vectors of length 0..3
     emu = online.prepare(sc)
     words = ["-t", "-x", "", "-t -t"]
-    argvs = [()] + [(a,) for a in words] + list(itertools.product(words, repeat=2))
+    # spellings a flag-parsing library would also accept: only the exact argument "-t" selects test mode
+    odd = ["--t", "-t=true", "-t=false", "-t=1", "-t=0", "--", "-T", "t", "-tt", "-h", "--help", " -t", "-t ", "--t=true"]
+    argvs = [()] + [(a,) for a in words + odd] + list(itertools.product(words, repeat=2))
+    argvs += [("-t", "--"), ("--", "-t"), ("-t", "extra"), ("--t", "-t"), ("-t=true", "-t")]
     triples = list(itertools.product(words, repeat=3))
     argvs += triples if tier != "quick" else rnd.sample(triples, 8)
     scn, text = online.make_scenario(rnd, {"reg": 1, "pdu": 0, "svc": 0, "rel": 0, "dereg": 0})
@@ -862,7 +866,8 @@ def check_C18(sc, v, tier, seed, replay):
               "ports 0/65535, counts 0/1/large; keys written in random order) loaded by the real GetConfiguration and compared key by key; "
               "(b) complete runs of the real process with random configurations judged on the wire by the TLC AMF (SUCI, PLMN, gNB id/name, RES*, "
               "S-NSSAI, GTP address, procedure counts, N2 addresses and ports via hook H1); (c) argument vectors of length 0..3 over "
-              "{-t, -x, '', '-t -t'} (all of length <= 2, sampled|all of length 3): banner / usage / N2 traffic; distinct = distinct assignment or argv")
+              "{-t, -x, '', '-t -t'} (all of length <= 2, sampled|all of length 3) plus the spellings a flag parser would accept (--t, -t=true, -t=false, --, -T, ...): "
+              "banner / usage / N2 traffic; distinct = distinct assignment or argv")
     v.assumptions = ["YAML is written by the harness's own emitter (double-quoted scalars)", "interface names are only checked at structure level (traffic mode cannot start in the sandbox)"]
     _reject_to_violation(v, rejects, lambda r, e: "%s:%s" % (e.get("ev"), r["why"][:60]))
 
